@@ -37,7 +37,7 @@ def run(ck):
         outs.append(gen(ck, "Gen_Render_sim2", "sim2", simulate=40000, depth=76, workers=12))
     for o in outs:
         bad = o + ".bad"
-        s = vh_json(["c03", "--in", o, "--out", bad, "--chop", "1"])
+        s = vh_json(["c03", "--in", o, "--out", bad, "--chop", "1", "--breaks", "1"])
         ck.evaluations += s["runs"]
         ck.distinct += s["distinct"]
         ck.traces += s["behaviours"]
